@@ -219,6 +219,7 @@ def _exec_search_loop(interp, node, seq, env):
     some = T.fresh("some_item_fails", T.BOOL)
     w = T.fresh("w", T.INT)
     c.axiom(T.implies(some, T.and_(T.le(0, w), T.lt(w, seq.n), cond_at(w))))
+    c.last_search = {"seq": seq, "witness": w, "some": some}
     if c.decide(some, f"loop@{node.lineno}: some item satisfies the raising condition"):
         interp.assign(node.target, seq.elem(w), env)
         for ifn in ifs:  # the first test that holds at the witness raises
